@@ -68,6 +68,24 @@ Spec == Init /\ [][Next]_vars
 
 (* ---- theorems ---- *)
 InvHonest == st.pc = "Done" => Honest(st)
+\* the same statements read off the RUN (the events that happened) instead of the state the machine kept
+Evs(ph) == SelectSeq(hist, LAMBDA e : e.ph = ph)
+AllOk(ph) == \A i \in 1..Len(Evs(ph)) : Evs(ph)[i].ok
+LastWork == Evs("work")[Len(Evs("work"))]
+InvRunHonest ==
+  st.pc = "Done" =>
+    LET fine == AllOk("args") /\ AllOk("validate") /\ AllOk("load") IN
+    /\ st.tool = "validate" => /\ (st.code = 0) <=> fine
+                               /\ (st.code = 2) <=> ((AllOk("args") /\ AllOk("validate") /\ ~AllOk("load")) \/ ~AllOk("args"))
+                               /\ (st.code = 1) <=> (AllOk("args") /\ ~AllOk("validate"))
+    /\ st.tool = "get" => ((st.code = 0) <=> (fine /\ Len(Evs("work")) = 1 /\ LastWork.k \in {"matched", "empty"}))
+    /\ st.tool = "get" => (st.code = 0 /\ LastWork.k = "matched" => st.lines = LastWork.n /\ st.lines >= 1)
+    /\ st.tool = "diff" => ((st.code = 0) <=> (fine /\ Len(Evs("work")) = 1 /\ LastWork.k = "same"))
+    /\ st.tool = "paths" => ((st.code = 0) <=> (fine /\ \A i \in 1..Len(Evs("work")) : Evs("work")[i].k # "badexpr"))
+    /\ st.tool = "merge" => ((st.code = 0) <=> (fine /\ \A i \in 1..Len(Evs("work")) : Evs("work")[i].res = "ok"))
+    /\ st.tool = "merge" => ((st.code = 0) <=> (st.doc = "written"))
+    /\ st.tool = "set" => ((st.code = 0) <=> (fine /\ Len(Evs("work")) >= 1 /\ LastWork.k = "apply" /\ LastWork.res = "ok"))
+    /\ st.tool = "set" => ((st.code = 0) <=> (st.doc = "written"))
 \* file and stdin delivery: the twin run is a run, and it ends where this one does
 InvDeliveryIndependent ==
   LET t == Run(st.tool, st.o, Twin(hist)) IN t.ok /\ t.s = st
